@@ -201,7 +201,8 @@ ADDENDA = {
             " Whole stack: Stack.tla for 1-2 callers x 1-2 peer requests; 60 (quick) / 1500 (thorough) scheduled executions, each trace-validated."),
     "C14": ("; Resend.tla extended with a repeated first answer (Dup) and unregistration by identity (PopByIdentity; by key is the tree before "
             "F-C14-pop-by-key), sweep over the repeated answer's dispatcher; answers without a Result-Code; a repeated answer while the same "
-            "Hop-by-Hop is outstanding on another interface; whole-stack stage (spec/Stack.tla, Trace_Stack) as in C13 with local callers in every execution",
+            "Hop-by-Hop is outstanding on another interface; spec/Nested.tla (route functions waiting for nested answers through the main loop, "
+            "no limit on message threads; a limit deadlocks) bound by 90 such route functions on the real main loop; whole-stack stage (spec/Stack.tla, Trace_Stack) as in C13 with local callers in every execution",
             " Whole stack: Stack.tla with liveness; 60 / 1500 executions trace-validated."),
     "C15": ("; Ids.tla extended with constructions that fail after their draws (IdAbort; deviation ReleaseLast; invariant Registered); after every "
             "concurrent execution the source repeats every identifier handed out; block reads of the random source are honoured by the doubles", ""),
